@@ -46,3 +46,11 @@ package utils
 //@   frame none
 //@ func NewCompositeChecksumReader
 //@   frame none
+
+// ---- C07: max-keys ----------------------------------------------------------------------------------
+// A page size accepted from a query string is a count between 0 and 1000 (larger values are clamped, an absent
+// value means 1000); everything else is an error.
+//@ func ParseUint
+//@   frame none
+//@   ensures {C07} [accepted-page-size-is-0-to-1000] err == nil ==> 0 <= ret0 && ret0 <= 1000
+//@   ensures {C07} [absent-means-1000] str == "" ==> err == nil && ret0 == 1000
